@@ -8,7 +8,7 @@ from ..world import make  # noqa: F401
 
 LEVEL = 'model_checking'
 RULE = ('a raising handler placed first / middle / last among three handlers; async raise, raise after a pause, sync raise, returned exception object (sync and async); exception '
-        'types ValueError, a custom exception with state, RuntimeError, KeyError and TimeoutError raised by the handler itself; placed in the root event, an awaited child, a '
+        'types ValueError, a custom exception with state, RuntimeError, KeyError, a chained exception (raise ... from ...) and TimeoutError raised by the handler itself; placed in the root event, an awaited child, a '
         'fire-and-forget child or a handler on a forwarded-to bus; serial and parallel_handlers; another event in flight; afterwards main awaits the event and calls '
         'event_result(raise_if_any=True/False). all schedules <= L deviations. non-trivial = a handler raised/returned an exception while another handler or event was pending; '
         'distinct = distinct recorder traces')
@@ -18,8 +18,8 @@ KINDS = {
     'raise': ('async', lambda t: [('raise', t)]),
     'pause_raise': ('async', lambda t: [('pause',), ('raise', t)]),
     'sync_raise': ('sync', lambda t: [('raise', t)]),
-    'ret_exc': ('async', lambda t: [('pause',), ('ret', 'exc:' + t)]),
-    'sync_ret_exc': ('sync', lambda t: [('ret', 'exc:' + t)]),
+    'ret_exc': ('async', lambda t: [('pause',), ('ret', 'exc:' + ('Custom' if t == 'Chained' else t))]),
+    'sync_ret_exc': ('sync', lambda t: [('ret', 'exc:' + ('Custom' if t == 'Chained' else t))]),
 }
 
 
@@ -27,7 +27,7 @@ def families(tier):
     deep = tier == 'thorough'
     out = []
     cfg = dict(bound=3 if deep else 2, cap=30000 if deep else 1200, window=0.25, max_targets=2)
-    types = ['ValueError', 'Custom', 'RuntimeError', 'KeyError', 'TimeoutError']
+    types = ['ValueError', 'Custom', 'RuntimeError', 'KeyError', 'TimeoutError', 'Chained']
     for pos, kind, typ, place, par in itertools.product((0, 1, 2), KINDS, types, ['root', 'child_aw', 'child_ff', 'fwd_bus'], (False, True)):
         if not deep:
             if typ in ('RuntimeError', 'KeyError') and (kind != 'raise' or place != 'root'):
@@ -74,6 +74,8 @@ def oracle(spec, res):
     out = []
     p = spec['params']
     typ = p['typ']
+    if typ == 'Chained' and 'ret_exc' in p['kind']:
+        typ = 'Custom'
     v = res['verdict'][0]
     if v != 'done':
         out.append(V('hang_or_crash', str(res['verdict']), exc_type=typ))
